@@ -89,14 +89,66 @@ func describe(v Value) string {
 	return v.kind()
 }
 
+// referenced reports whether some other tracked object holds a pointer to
+// object id.
+func (a *Analyzer) referenced(mem *Memory, id int) bool {
+	found := false
+	for k, v := range mem.cells {
+		if k == id || found {
+			continue
+		}
+		if t := a.objType[k]; t != nil && !a.mayHoldPointers(t) {
+			continue
+		}
+		pointersIn(v, func(p *Ptr) {
+			if p.Obj == id {
+				found = true
+			}
+		})
+	}
+	return found
+}
+
+// mayHoldPointers reports whether a value of type t can contain a pointer or
+// slice (memoised; big limb and byte tables are skipped quickly).
+func (a *Analyzer) mayHoldPointers(t types.Type) bool {
+	if v, ok := a.ptrTypes[t]; ok {
+		return v
+	}
+	a.ptrTypes[t] = true // recursive types: assume yes
+	r := true
+	switch u := t.Underlying().(type) {
+	case *types.Basic:
+		r = u.Kind() == types.UnsafePointer || u.Kind() == types.String
+	case *types.Array:
+		r = a.mayHoldPointers(u.Elem())
+	case *types.Struct:
+		r = false
+		for i := 0; i < u.NumFields() && !r; i++ {
+			r = a.mayHoldPointers(u.Field(i).Type())
+		}
+	}
+	a.ptrTypes[t] = r
+	return r
+}
+
 // step interprets one non-control instruction.
 func (a *Analyzer) step(fr *frame, instr ssa.Instruction, mem *Memory) {
 	switch in := instr.(type) {
 	case *ssa.Alloc:
 		id := a.objID(fmt.Sprintf("alloc:%s|%p", fr.ctx, in))
 		et := in.Type().(*types.Pointer).Elem()
-		mem.cells[id] = zeroValue(et)
-		delete(mem.shared, id)
+		// Objects are named by allocation site and context.  When the site
+		// is executed again (a loop) while another object still points to
+		// the previous instance, the name stands for several live objects:
+		// it keeps the old contents and is only updated weakly from now on.
+		if old, exists := mem.cells[id]; exists && (mem.multi[id] || a.referenced(mem, id)) {
+			mem.multi[id] = true
+			mem.cells[id] = joinValues(old, zeroValue(et))
+		} else {
+			mem.cells[id] = zeroValue(et)
+			delete(mem.shared, id)
+		}
 		a.objType[id] = et
 		fr.env[in] = &Ptr{Obj: id}
 	case *ssa.BinOp:
